@@ -47,7 +47,7 @@ MATERIAL = [
     ('\\textbf{\\emph{x} y}', 'emph'), ('\\begin{e}\\x{}\\end{e}', 'x'),
     ('\\begin{itemize}\\item \\foo{a}\n\\end{itemize}', 'foo'), ('\\bar[\\qq{z}]{w}', 'qq'), ('$\\x{}$', 'x'),
 ]
-ARG_STRINGS = ['{x}', '[y]', '{}', '{a b}', '[x]', '{x}']
+ARG_STRINGS = ['{x}', '[y]', '{}', '{a b}', '[x]', '{x}', '{{a}b}', '[[1] 2]']
 
 
 def setup(job):
